@@ -42,7 +42,7 @@ def tla_set(items):
 
 
 def workdir(name):
-    d = os.path.join(BUILD, name)
+    d = os.path.join(BUILD, "%s_%d" % (name, os.getpid()))      # per process: concurrent runs of a check do not collide
     shutil.rmtree(d, ignore_errors=True)
     os.makedirs(d)
     return d
